@@ -378,9 +378,9 @@ Lemma t_step_inv t o : tinv t -> op_ok o -> exists t', t_step t o = Ok t' /\ tin
 Proof.
   destruct sizes_pos as [SI SC]. destruct t as [p c k]. unfold tinv, op_ok. cbn [ibuf_pos ibuf_cnt icmd_pos].
   intros (H1 & H2 & H3 & H4 & H5) Ho. destruct o as [n|[n|]|]; unfold t_step; cbn [ibuf_pos ibuf_cnt icmd_pos].
-  - destruct (Z.ltb_spec (c - p) 0); [lia|]. destruct (Z.ltb_spec p 0); [lia|]. destruct (Z.ltb_spec IBUFSZ c); [lia|]. cbn [orb].
-    destruct (Z.ltb_spec (Z.min n (IBUFSZ - (c - p))) 0); [lia|].
-    destruct (Z.ltb_spec IBUFSZ (Z.min n (IBUFSZ - (c - p)) + (c - p))); [lia|]. cbn [orb].
+  - destruct (Z.ltb_spec (Z.min n (IBUFSZ - c)) 0); [lia|]. destruct (Z.ltb_spec (c - p) 0); [lia|].
+    destruct (Z.ltb_spec p 0); [lia|]. destruct (Z.ltb_spec IBUFSZ (p + (c - p))); [lia|]. cbn [orb].
+    destruct (Z.ltb_spec IBUFSZ (p + Z.min n (IBUFSZ - c) + (c - p))); [lia|].
     eexists. split; [reflexivity|]. cbn [ibuf_pos ibuf_cnt icmd_pos]. lia.
   - destruct (Z.leb_spec c p).
     + destruct (Z.leb_spec n 0); [eexists; split; [reflexivity|cbn [ibuf_pos ibuf_cnt icmd_pos]; lia]|].
@@ -423,15 +423,15 @@ Proof.
   intro H. destruct (t_run_inv ops t_init t_init_inv H) as (t & E & I). exists t. unfold tinv in I. split; [assumption|lia].
 Qed.
 
-(* a push first moves the unread part to the front, then adds min(n, room left) bytes before it *)
+(* a push keeps the read position and adds exactly min(n, room left) bytes *)
 Lemma term_push_clipped t n t' : tinv t -> 0 <= n -> t_step t (TPush n) = Ok t' ->
-  ibuf_pos t' = 0 /\ ibuf_cnt t' = (ibuf_cnt t - ibuf_pos t) + Z.min n (IBUFSZ - (ibuf_cnt t - ibuf_pos t)) /\
+  ibuf_pos t' = ibuf_pos t /\ ibuf_cnt t' = ibuf_cnt t + Z.min n (IBUFSZ - ibuf_cnt t) /\
   ibuf_cnt t' <= IBUFSZ /\ icmd_pos t' = icmd_pos t.
 Proof.
   destruct t as [p c k]. cbv beta iota zeta delta [tinv t_step ibuf_pos ibuf_cnt icmd_pos]. intros I Hn.
-  destruct ((c - p <? 0) || (p <? 0) || (IBUFSZ <? c)) eqn:C1; [discriminate|].
-  destruct ((Z.min n (IBUFSZ - (c - p)) <? 0) || (IBUFSZ <? Z.min n (IBUFSZ - (c - p)) + (c - p))) eqn:C2; [discriminate|]. intro E.
-  assert (t' = mkT 0 (c - p + Z.min n (IBUFSZ - (c - p))) k) as -> by congruence.
+  destruct ((Z.min n (IBUFSZ - c) <? 0) || (c - p <? 0) || (p <? 0) || (IBUFSZ <? p + (c - p))) eqn:C1; [discriminate|].
+  destruct (IBUFSZ <? p + Z.min n (IBUFSZ - c) + (c - p)) eqn:C2; [discriminate|]. intro E.
+  assert (t' = mkT p (c + Z.min n (IBUFSZ - c)) k) as -> by congruence.
   repeat split; lia.
 Qed.
 
